@@ -867,6 +867,18 @@ def describe_state(A, s):
     k = A.kind_of(s)
     kind = "cleanup-kind" if k in cleanup_kinds else ("skippable-kind" if k in skippable else "always-run-kind")
     cls = [n for n in ("Init", "Ready", "Running", "Finished", "Failed", "UpstreamFailed", "Aborted", "CleanupOffered") if s in C[n]]
+    if not cls:
+        # pending, decided states
+        try:
+            from rules_compare import invalidated_states
+            if s in invalidated_states(A):
+                cls.append("invalidated")
+            elif s in delayed_states(A):
+                cls.append("validated,parked")
+            else:
+                cls.append("validated,upstreams-pending")
+        except Imprecision:
+            cls.append("pending")
     if s in C["Finished"] and s not in C["FailedLike"]:
         cls.append("never-started" if reachable_without_running(A, s) else "after-running")
     return "%s{%s}" % (kind, ",".join(cls))
@@ -2127,6 +2139,43 @@ def _flat_roles(roles):
     return out
 
 
+def skip_passes(A, s, d, sk):
+    """edge-flag combinations under which the consider logic, for a job in the delayed state s whose direct downstreams are all in
+    state d (at least one downstream), emits the skip signal for the job"""
+    from interp import Interp, Config
+    from rules_compare import consider_entry_fns
+    from domain import adt as mkadt
+    key_ = ("_skip_passes", s, d)
+    if key_ in A.__dict__:
+        return A.__dict__[key_]
+    flag_ty = [f["ty"]["adt"] for f in A.L.edge_fields if f["ty"].get("adt") in A.uni.fin]
+    combos = [()]
+    for ft in flag_ty:
+        combos = [c + (x,) for c in combos for x in A.uni.fin[ft]]
+    out = []
+    for fn in sorted(consider_entry_fns(A, sk)):
+        cb = A.facts.body(fn)
+        for combo in combos:
+            cfg = Config(label="SKP", cell_init={"param": fin(A.L.jobstate, [s]), "nbr:Outgoing:param": fin(A.L.jobstate, [d])})
+            cfg.nonempty_nbrs = True
+            I = Interp(A.facts, A.uni, A.layout, cfg)
+            from interp import State
+            st = State()
+            fields, ci = [], 0
+            for f in A.L.edge_fields:
+                if f["ty"].get("adt") in A.uni.fin:
+                    fields.append(fin(f["ty"]["adt"], [combo[ci]]))
+                    ci += 1
+                else:
+                    fields.append(TOP)
+            st.heap["__edge_default__"] = mkadt(A.L.edgeinfo, {0: tuple(fields)})
+            fr, o_, col = I.analyze(cb, state=st)
+            if any(k[0] == "push_signal" and sk in x["kinds"] and is_role(x["key"], "param") for k, x in I.rec.facts.items()):
+                out.append(tuple(A.uni.show(t_, x) for t_, x in zip(flag_ty, combo)))
+    A.__dict__[key_] = out
+    return out
+
+
 def rule_skip_decision(A, R, rule):
     C = A.classes()
     K = kinds(A)
@@ -2178,17 +2227,23 @@ def rule_skip_decision(A, R, rule):
                 ps = summaries[c["callee"]]
                 if ps is not None:
                     guards.append((c["callee"], ps))
-            ok = False
-            why = "no function that inspects every direct downstream dominates the decision to skip"
-            for (gn, ps) in guards:
-                bad = [d for d in ps if A.kind_of(d) not in cleanup_kinds and d in A.reach() and can_run(d)]
-                if not bad:
-                    ok = True
-                else:
-                    why = "%s lets the skip pass although a direct downstream in state %s can still come to run and would then need the Ephemeral's output" % (
-                        short(gn), A.snames(bad))
-            R.ob(rule, "%s | consider handler from %s | skipping the delayed Ephemeral requires that no consuming downstream can still run"
-                 % (short(v["fn"]), A.sname(s)), ok, detail=why, site=A.site(v))
+            R.ob(rule, "%s | consider handler from %s | the decision to skip the delayed Ephemeral is dominated by a test over all direct downstreams"
+                 % (short(v["fn"]), A.sname(s)), bool(guards),
+                 detail="no function that inspects every direct downstream dominates the decision to skip", site=A.site(v))
+            # one obligation per downstream state: no guard lets a downstream pass that can still come to run (it would then need
+            # the Ephemeral's output: an Output/Always consumer directly, an Ephemeral consumer when it is needed itself)
+            if not guards:
+                continue
+            for d in sorted(A.reach()):
+                if not can_run(d):
+                    continue
+                passes = skip_passes(A, s, d, sk)
+                R.ob(rule, "%s | consider handler from %s | a direct downstream in %s (it can still come to run) blocks the skip"
+                     % (short(v["fn"]), A.sname(s), A.sname(d)), not passes,
+                     skey="consider handler | delayed Ephemeral skipped past a downstream %s that can still run" % describe_state(A, d),
+                     detail="with all direct downstreams in that state (edge flags %s) the Ephemeral is finished as 'skipped'; the downstream can "
+                            "later be found to need it and is then offered although its input was not executed in this evaluation" % (passes[:2],),
+                     site=A.site(v))
     R.floor(rule, "skip decisions for delayed Ephemerals", n, 1)
 
 
